@@ -1413,6 +1413,19 @@ std::string Generator::GeneratorImpl::generateCode(const AnalyserEquationAstPtr 
             code = generateOperatorCode(mProfile->plusString(), ast);
         } else {
             code = generateCode(ast->leftChild());
+
+            // A unary plus hides its operand from the operator that it is an operand of: keep a compound operand together.
+
+            auto astParent = ast->parent();
+            auto astLeftChild = ast->leftChild();
+
+            if ((astParent != nullptr) && (astParent->type() != AnalyserEquationAst::Type::EQUALITY)
+                && (isRelationalOperator(astLeftChild) || isLogicalOperator(astLeftChild)
+                    || isPlusOperator(astLeftChild) || isMinusOperator(astLeftChild)
+                    || isTimesOperator(astLeftChild) || isDivideOperator(astLeftChild)
+                    || isPiecewiseStatement(astLeftChild))) {
+                code = "(" + code + ")";
+            }
         }
 
         break;
